@@ -14,7 +14,7 @@ pub fn decode(tape: &[u32]) -> String {
         3 => 14 + t.pick(25),
         _ => 39 + t.pick(30),
     };
-    const ALPHA: &[&str] = &["\n", "\n", "\r\n", "\r", " ", "\t", "a", "é", ";", "ab c", "  "];
+    const ALPHA: &[&str] = &["\n", "\n", "\r\n", "\r", " ", "\t", "a", "é", ";", "ab c", "  ", "\n", " ", "\u{b}", "\u{c}", "\u{a0}", "\u{85}", "\u{2028}", "\u{3000}"];
     let mut s = String::new();
     for _ in 0..len {
         s.push_str(ALPHA[t.pick(ALPHA.len())]);
@@ -81,6 +81,9 @@ pub fn check_text(src: &str, st: &mut Stats) -> Result<(), String> {
         if src.ends_with('\n') {
             st.class("ends-with-newline");
         }
+        if pieces.iter().any(|p| p.trim() != p.trim_matches(|c: char| c.is_ascii_whitespace())) {
+            st.class("line-edged-by-non-ascii-or-vt-whitespace");
+        }
         if st.want_sample() {
             st.sample(json!(src));
         }
@@ -94,13 +97,13 @@ pub fn check(tape: &[u32], st: &mut Stats) -> Result<(), String> {
 
 pub fn run(ctx: &Ctx) -> Outcome {
     let mut out = Outcome::new(
-        "strings of 0-70 pieces over {LF, CRLF, CR, space, tab, 'a', 'é', ';'}; every line index 0..count+2 (count_lines, line_span, read_line) and every character index 0..=len+10 (get_pos_pair) \
+        "strings of 0-70 pieces over {LF, CRLF, CR, space, tab, vertical tab, form feed, U+00A0, U+0085, U+2028, U+3000, 'a', 'é', ';'}; every line index 0..count+2 (count_lines, line_span, read_line) and every character index 0..=len+10 (get_pos_pair) \
          compared with split-on-newline arithmetic; an evaluation is one query; non-trivial = text with >= 2 lines (every such text is queried at all line boundaries and past the end); distinct by text",
     );
     let cfg = TapeCfg::new(ctx, 6000, 200_000, 80);
     out.shards = cfg.shards;
     out.absorb(tape_search(ctx, "main", &cfg, check, |t| json!({"text": decode(t)})));
-    out.essential = vec!["multi-line".into(), "crlf".into(), "whitespace-only-line".into(), "ends-with-newline".into()];
+    out.essential = vec!["multi-line".into(), "crlf".into(), "whitespace-only-line".into(), "ends-with-newline".into(), "line-edged-by-non-ascii-or-vt-whitespace".into()];
     out
 }
 
